@@ -72,6 +72,9 @@ type GhostVar struct {
 	Name string
 	T    types.Type // Go type, *RawBV or *RawSort
 	Sort *smt.Sort
+	// AllocInit, for a ghost map keyed by reference: the value the map takes at every freshly
+	// allocated reference ("ghost name (Array Int S) allocinit v").
+	AllocInit string
 }
 
 func (e *Engine) warn(format string, a ...interface{}) {
@@ -221,6 +224,10 @@ func (e *Engine) addContractFile(path string, p *packages.Package, overlay map[s
 	}
 	for _, g := range cf.Ghosts {
 		gv := &GhostVar{Name: g.Name}
+		if i := strings.Index(g.Type, " allocinit "); i >= 0 {
+			gv.AllocInit = strings.TrimSpace(g.Type[i+len(" allocinit "):])
+			g.Type = strings.TrimSpace(g.Type[:i])
+		}
 		if strings.HasPrefix(g.Type, "(") || g.Type == "Int" || g.Type == "Bool" {
 			es, err := smt.ParseSExprs(g.Type)
 			if err != nil || len(es) != 1 {
